@@ -288,7 +288,7 @@ func (p *Parser) parsePosting() *ast.Posting {
 
 	posting.Account = ast.Account{
 		Name:  p.current.Value,
-		Range: ast.Range{Start: toASTPosition(p.current.Pos), End: toASTPosition(p.current.End)},
+		Range: ast.Range{Start: toASTPosition(p.current.Pos), End: toASTPosition(tokenEnd(p.current))},
 	}
 	p.advance()
 
@@ -346,7 +346,7 @@ func (p *Parser) parseAmount() *ast.Amount {
 			Position: ast.CommodityLeft,
 			Range: ast.Range{
 				Start: toASTPosition(p.current.Pos),
-				End:   toASTPosition(p.current.End),
+				End:   toASTPosition(tokenEnd(p.current)),
 			},
 		}
 		if signBeforeCommodity && (sign == "-" || sign == "+") {
@@ -394,7 +394,7 @@ func (p *Parser) parseAmount() *ast.Amount {
 				Position: ast.CommodityRight,
 				Range: ast.Range{
 					Start: toASTPosition(p.current.Pos),
-					End:   toASTPosition(p.current.End),
+					End:   toASTPosition(tokenEnd(p.current)),
 				},
 			}
 			p.advance()
